@@ -134,7 +134,8 @@ a1:
 """),
 }
 
-KINDS = ['delete', 'null', 'int', 'bool', 'str', 'list', 'dict', 'bad_yaql', 'bad_jinja', 'int_key', 'odd_key', 'dup_version']
+KINDS = ['delete', 'null', 'int', 'bool', 'str', 'list', 'dict', 'bad_yaql', 'bad_jinja', 'int_key', 'odd_key', 'dup_version',
+         'add_version_float', 'add_version_other', 'add_name']
 
 
 def nodes_of(doc):
@@ -182,6 +183,16 @@ def mutate(doc, path, kind):
             parent[last] = {'a b.c': 1}
     elif kind == 'dup_version':
         doc['version'] = [2.0]
+    elif kind in ('add_version_float', 'add_version_other', 'add_name'):
+        # a key that the item may carry itself: its own version (as YAML reads an unquoted 2.0, or another version), a name
+        target = parent[last]
+        if isinstance(target, dict):
+            if kind == 'add_name':
+                target['name'] = 'other'
+            else:
+                target['version'] = 2.0 if kind == 'add_version_float' else '3'
+        else:
+            parent[last] = {'version': 2.0}
     return doc
 
 
@@ -261,6 +272,30 @@ def _validate(args):
         except Exception as e:
             stable = False
             detail = 'reinstantiate: %r' % e
+        # what later execution steps do: the stored dictionaries of every workflow, task and action are read back
+        # through the parser's own functions (get_workflow_spec / get_task_spec / get_action_spec)
+        if stable:
+            try:
+                wfs = list(spec.get_workflows() or []) if hasattr(spec, 'get_workflows') else []
+                acts = list(spec.get_actions() or []) if hasattr(spec, 'get_actions') else []
+                for w_ in wfs:
+                    again = spec_parser.get_workflow_spec(copy.deepcopy(w_.to_dict()))
+                    if again is None or _canon(again.to_dict()) != _canon(w_.to_dict()):
+                        stable = False
+                        detail = 'workflow %s read back from its stored dictionary is %s' % (w_.get_name(), 'None' if again is None else 'different')
+                    for t_ in w_.get_tasks():
+                        tagain = spec_parser.get_task_spec(copy.deepcopy(t_.to_dict()))
+                        if tagain is None or _canon(tagain.to_dict()) != _canon(t_.to_dict()):
+                            stable = False
+                            detail = 'task %s read back from its stored dictionary is %s' % (t_.get_name(), 'None' if tagain is None else 'different')
+                for a_ in acts:
+                    aagain = spec_parser.get_action_spec(copy.deepcopy(a_.to_dict()))
+                    if aagain is None or _canon(aagain.to_dict()) != _canon(a_.to_dict()):
+                        stable = False
+                        detail = 'action %s read back from its stored dictionary is %s' % (a_.get_name(), 'None' if aagain is None else 'different')
+            except Exception as e:
+                stable = False
+                detail = 'read back: %r' % e
         if kind_of_doc == 'workbook':
             try:
                 for wf_spec in (spec.get_workflows() or []):
